@@ -309,6 +309,21 @@ pub fn run(c: &Case, _ctx: &Ctx) -> Outcome {
         if let Err(e) = verify_packs(&w.storage, &key, false) {
             fail!("after {ex:?}: {e}");
         }
+        // the command returned Ok: every pack it wrote is recorded by an index file (the merged /
+        // rewritten / repaired snapshot itself is not modelled here, so nothing else would read it)
+        match index_view(&w.storage, &key) {
+            Ok(view) => {
+                for p in w.packs().difference(&before) {
+                    if !view.packs.contains_key(p) {
+                        fail!(
+                            "after {ex:?}: the command returned Ok but pack {} which it wrote is not listed by any index file",
+                            &hex::encode(p)[..8]
+                        );
+                    }
+                }
+            }
+            Err(e) => fail!("after {ex:?}: cannot decode the index: {e}"),
+        }
     }
 
     // delete a subset of the index files, rebuild, verify
